@@ -6,6 +6,7 @@
 #include "contracts/stubs.h"
 #include "src/alloc.c"
 #include "contracts/alloc.h"
+#include "contracts/malloc_dispatch.h"
 
 void h_realloc_zero(void) {
   g_k = vc_nondet_size("g_k"); g_usable_old = vc_nondet_size("g_usable_old"); g_usable_new = vc_nondet_size("g_usable_new");
@@ -24,3 +25,9 @@ void h_fwd_realloc(void)  { void* p; void* r = mi_realloc(p, vc_nondet_size("new
 void h_fwd_reallocf(void) { void* p; void* r = mi_reallocf(p, vc_nondet_size("newsize")); VC_REACH(); }
 void h_fwd_rezalloc(void) { void* p; void* r = mi_rezalloc(p, vc_nondet_size("newsize")); VC_REACH(); }
 void h_expand(void) { g_usable_old = vc_nondet_size("g_usable_old"); void* p; void* r = mi_expand(p, vc_nondet_size("newsize")); VC_REACH(); }
+/* allocation entry: dispatch and argument passing (contracts/malloc_dispatch.h) */
+void h_small_zero(void) { mi_heap_t* heap; void* r = mi_heap_malloc_small_zero(heap, vc_nondet_size("size"), vc_nondet_bool("zero")); VC_REACH(); }
+void h_malloc_zero_ex(void) { mi_heap_t* heap; void* r = _mi_heap_malloc_zero_ex(heap, vc_nondet_size("size"), vc_nondet_bool("zero"), vc_nondet_size("huge_alignment")); VC_REACH(); }
+void h_malloc_zero(void) { mi_heap_t* heap; void* r = _mi_heap_malloc_zero(heap, vc_nondet_size("size"), vc_nondet_bool("zero")); VC_REACH(); }
+void h_heap_malloc(void) { g_usable_new = vc_nondet_size("g_usable_new"); mi_heap_t* heap; void* r = mi_heap_malloc(heap, vc_nondet_size("size")); VC_REACH(); }
+void h_heap_zalloc(void) { g_usable_new = vc_nondet_size("g_usable_new"); mi_heap_t* heap; void* r = mi_heap_zalloc(heap, vc_nondet_size("size")); VC_REACH(); }
